@@ -3,7 +3,7 @@
 import json, subprocess
 
 P = {
- "C01": ("model-based stateful PBT (proptest histories vs naive reference) + bounded-exhaustive state closure", "3.C01",
+ "C01": ("model-based stateful PBT (proptest histories vs naive reference) + bounded-exhaustive state closure + bounded-exhaustive histories", "3.C01",
          "KeyExpTree predecessor queries agree with a naive reference on every generated history (tiny coincidence-rich universes, medium and large trees) and on every transition of a small universe closed to a state fixpoint."),
  "C02": ("invariant checking after every step of generated histories (snapshot hook) + bounded-exhaustive shape closure", "3.C02",
          "Red-black validity predicate evaluated on a structural snapshot after every public operation of every generated history on all three tree copies; all reachable shapes over small key universes are closed to a fixpoint."),
@@ -13,7 +13,7 @@ P = {
          "MapTree lookups / emptiness agree with std::collections::BTreeMap on every generated history (integer and String values, all hints) and at every state of the closed small universe."),
  "C05": ("model-based stateful PBT vs std BTreeMap + bounded-exhaustive state closure with full lookup sweeps", "3.C05",
          "SetTree lookups return the stored value (key and payload) exactly when present, on generated histories and at every state of the closed small universe; payload != key so mix-ups are visible."),
- "C06": ("model-based stateful PBT + bounded-exhaustive state closure with lookup of every key", "3.C06",
+ "C06": ("model-based stateful PBT + bounded-exhaustive state closure with lookup of every key + bounded-exhaustive histories", "3.C06",
          "KeyExpTree::get_value agrees with the reference for stored-live, stored-expired and never-stored keys wherever the entry sits."),
  "C07": ("model-based + differential (tree vs list) PBT + bounded-exhaustive closure with export at every t", "3.C07",
          "Ordered export equals the reference's live entries in key order, and tree == list, for generated histories ending in an export at a time chosen relative to the stored expirations."),
@@ -25,9 +25,9 @@ P = {
          "No generated in-contract history on any of the seven collections panics, aborts in unchecked indexing, overflows, exceeds the callback budget or hangs."),
  "C11": ("invariant checking (arena accounting) after every step of long churn histories + state closure", "3.C11",
          "Sentinel / tree / free-list partition the arena after every operation, clear frees everything, and the arena stays within a constant multiple of the peak population."),
- "C12": ("differential PBT against a fresh twin driven by the same suffix", "3.C12",
+ "C12": ("differential PBT against a fresh twin driven by the same suffix + bounded-exhaustive histories (every sequence of 6-8 operations over 1-3 keys)", "3.C12",
          "After clear every observation equals that of a freshly constructed twin, for all seven collections, including restarted clocks."),
- "C13": ("model-based stateful PBT on the list variants + bounded-exhaustive closure", "3.C13",
+ "C13": ("model-based stateful PBT on the list variants + bounded-exhaustive closure + bounded-exhaustive histories", "3.C13",
          "KeyExpList / MapList / SetList give the reference answers, neighbour steps past either end give the empty sentinel, and the min-expiration shortcut never shows an expired or hides a live entry."),
  "C14": ("complete domain tables + random domains, black-box bucket identification vs reference layout", "3.C14",
          "new() is Some exactly for >16 points; point values co-locate exactly as the reference 32-bucket power-of-two layout says, at both sides of every bucket edge; storage backs every reachable place."),
@@ -56,7 +56,7 @@ def main():
             "thorough_cmd": "./check %s --tier thorough" % pid,
             "evidence_file": "/verif/evidence/%s.json" % pid,
             "replay_cmd_template": "./check %s --replay {path}" % pid,
-            "engine": "itree-verif harness (proptest 1.11 hand-driven + bounded-exhaustive enumerator + fixed tables), sharded by ./check; two builds of the worker: checked (debug assertions, overflow checks) and optimised without them",
+            "engine": "itree-verif harness (proptest 1.11 hand-driven + bounded-exhaustive state closure + bounded-exhaustive histories + fixed tables), sharded by ./check; two builds of the worker: checked (debug assertions, overflow checks) and optimised without them",
             "level_claimed": {"category": "fault_enumeration" if pid == "C18" else "exploration", "text": text + " Held on everything explored; generated-input search never establishes absence.", "design_ref": "DESIGN.md section " + ref},
             "level_note": "Trusted base: the reference models and validity predicates in /verif/harness/src (written from the property text), the read-only snapshot hooks (feature verif-hooks), rustc's debug-assertion / unsafe-precondition checks as crash oracle (a quarter of every job table is also run by a worker built without debug assertions, as a user's release build would be). Input domain = in-contract histories by construction (model-directed interpreters).",
             "technique": tech,
